@@ -2,7 +2,7 @@
    Print Assumptions.  Hypotheses: sizes >= 1 (what the library accepts),
    stored frames are the padded cuts of one matrix at grid positions. *)
 From Coq Require Import String ZArith List Bool.
-From HD Require Import Base.Val C12_Model C12_Proofs C04_Model C04_Proofs C04_Proofs_Store.
+From HD Require Import Base.Val C12_Model C12_Proofs C04_Model C04_Proofs C04_Proofs_Store C04_Proofs_Geom.
 Import ListNotations.
 Open Scope Z_scope.
 
@@ -183,3 +183,63 @@ Example C04_example :
   end.
 Proof. vm_compute. repeat split; reflexivity. Qed.
 Print Assumptions C04_example.
+
+(* ---- geometry of the segmentation relative to its source image ------------- *)
+(* declared_is_mask_shape: whenever the constructor accepts a whole-matrix mask,
+   the TotalPixelMatrixRows/Columns it declares are the shape of the mask that
+   was passed - for every source matrix size, source tile size, tile size and
+   whether or not the mask's total pixel matrix coincides with the source's *)
+Theorem C04_declared_is_mask_shape : forall pres R C SR SC th tw sth stw d,
+  seg_declared pres R C SR SC th tw sth stw = Ok d -> d = (R, C).
+Proof. exact seg_declared_shape. Qed.
+Print Assumptions C04_declared_is_mask_shape.
+
+(* shape_guard_exact: a mask is refused exactly when its total pixel matrix is
+   said to coincide with the source's (same origin; orientation and spacing not
+   given or equal) but its shape differs *)
+Theorem C04_shape_guard_exact : forall o uo os um ms R C SR SC th tw sth stw,
+  seg_declared (tpm_preserved o uo os um ms) R C SR SC th tw sth stw = Err "ValueError" <->
+  ((o = true /\ (uo = true -> os = true) /\ (um = true -> ms = true)) /\ (R <> SR \/ C <> SC)).
+Proof. intros. rewrite seg_declared_refuses_iff, tpm_preserved_iff. reflexivity. Qed.
+Print Assumptions C04_shape_guard_exact.
+
+(* geometry_construction: construction with an own geometry is the plain
+   construction with tile size `tile_size or (source Rows, Columns)`,
+   declaring the mask's own shape, or a ValueError *)
+Theorem C04_geometry_construction : forall ty mf full omit planes segs R C g,
+  stored_geom ty mf full omit planes segs R C g =
+  let th := fst (eff_tile (g_tile g) (g_sth g) (g_stw g)) in
+  let tw := snd (eff_tile (g_tile g) (g_sth g) (g_stw g)) in
+  if geom_refused R C g then Err "ValueError"
+  else bind (stored ty mf full omit planes segs R C th tw) (fun st => Ok (th, tw, R, C, st)).
+Proof. exact stored_geom_eq. Qed.
+Print Assumptions C04_geometry_construction.
+
+(* geometry_tile_then_read: tile_then_read through the DECLARED matrix size
+   (regions are addressed against what the segmentation declares) *)
+Theorem C04_geometry_tile_then_read :
+  forall ty mf full omit planes R C g th tw RD CD st k Mk s e cs ce i j,
+  1 <= R -> 1 <= C -> 1 <= th -> 1 <= tw ->
+  NoDup (map fst planes) -> In (k, Mk) planes -> wf_matrix Mk R C ->
+  stored_geom ty mf full omit planes (map fst planes) R C g = Ok (th, tw, RD, CD, st) ->
+  1 <= s -> e <= RD + 1 -> 1 <= cs -> ce <= CD + 1 -> 0 <= i < e - s -> 0 <= j < ce - cs ->
+  cell (read_region (tiles_of_seg k st) s e cs ce th tw) i j =
+  cell Mk (s - 1 + i) (cs - 1 + j) * factor ty mf.
+Proof. exact geom_tile_then_read. Qed.
+Print Assumptions C04_geometry_tile_then_read.
+
+(* non-vacuity: a 3 x 2 mask with its own pixel spacing over a 5 x 4 source in
+   2 x 2 tiles, tile_size left at None, TILED_FULL: declares 3 x 2 and reads back;
+   the same mask without own geometry is refused *)
+Example C04_example_geom :
+  let L := [[0;1];[2;0];[1;1]] in
+  let g := mkGeom 5 4 2 2 None None true false false true false in
+  stored_geom Labelmap 255 true false [(0, L)] [0] 3 2 g =
+    Ok (2, 2, 3, 2, [mkS 0 (mkT 1 1 [[0;1];[2;0]]); mkS 0 (mkT 3 1 [[1;1];[0;0]])]) /\
+  run_seg_geom Labelmap 255 true false [(0, L)] [0] [1;2] 3 2 g
+    [(false, (None, None, None, None)); (false, (Some (-1), None, Some 2, None))] =
+    VL [VZ 2; VZ 2; VZ 2; VZ 3; VZ 2; vz_list2 L; vz_list2 [[1]]] /\
+  stored_geom Labelmap 255 true false [(0, L)] [0] 3 2
+    (mkGeom 5 4 2 2 None None true false false true true) = Err "ValueError".
+Proof. vm_compute. repeat split; reflexivity. Qed.
+Print Assumptions C04_example_geom.
